@@ -49,6 +49,9 @@ struct Params {
     rx_quit_after: Option<usize>,
     /// main keeps the original sender for this many yield points before dropping it
     main_hold: u32,
+    /// senders keep their end until every value has been received: a receiver that a send
+    /// failed to wake is not rescued by the disconnect
+    linger: bool,
 }
 
 const DURS: [u64; 5] = [1_000, 500_000, 1_000_000, 1_500_000, 3_000_000];
@@ -84,7 +87,10 @@ fn gen(seed: u64, only: Option<Flavor>) -> Params {
         _ => 2 * block - 3 + r.below(5) as usize,
     };
     let rx_quit_after = if r.chance(1, 4) { Some(r.below(4) as usize) } else { None };
-    Params { rt, flavor, senders, receivers, preroll, rx_quit_after, main_hold: r.below(10) as u32 }
+    let mut p = Params { rt, flavor, senders, receivers, preroll, rx_quit_after, main_hold: r.below(10) as u32, linger: false };
+    // drawn last: everything above is the same as before this field existed
+    p.linger = r.chance(1, 2) && p.rx_quit_after.is_none();
+    p
 }
 
 enum Tx {
@@ -171,6 +177,8 @@ impl Rx {
 
 static SENT_OK: AtomicU32 = AtomicU32::new(0);
 static RECEIVED: AtomicU32 = AtomicU32::new(0);
+static TOTAL: AtomicU32 = AtomicU32::new(u32::MAX);
+static ALL_RECEIVED: std::sync::atomic::AtomicBool = std::sync::atomic::AtomicBool::new(false);
 static RX_ALL_DROPPED: AtomicBool = AtomicBool::new(false);
 static RX_LEFT: AtomicU32 = AtomicU32::new(0);
 static RX_DROP_BEGUN: AtomicU32 = AtomicU32::new(0);
@@ -251,7 +259,9 @@ pub fn run(seed: u64, only: Option<Flavor>, mut ov: impl FnMut(&mut engine::Cfg)
                     ));
                 }
                 last[s] = seq;
-                RECEIVED.fetch_add(1, Ordering::Relaxed);
+                if RECEIVED.fetch_add(1, Ordering::Relaxed) + 1 == TOTAL.load(Ordering::Relaxed) {
+                    rt::set_flag(&ALL_RECEIVED);
+                }
                 drop(t);
             };
             loop {
@@ -339,6 +349,8 @@ pub fn run(seed: u64, only: Option<Flavor>, mut ov: impl FnMut(&mut engine::Cfg)
             None => txs.push(orig.take().unwrap()),
         }
     }
+    let linger = p.linger;
+    TOTAL.store(p.senders.iter().map(|s| s.1 as u32).sum(), Ordering::Relaxed);
     for (si, ((ctx, n, dally), tx)) in p.senders.iter().cloned().zip(txs.into_iter()).enumerate() {
         let all_ids = all_ids.clone();
         let name = format!("sender{}", si);
@@ -366,6 +378,13 @@ pub fn run(seed: u64, only: Option<Flavor>, mut ov: impl FnMut(&mut engine::Cfg)
                         drop(t);
                     }
                 }
+            }
+            if linger && TOTAL.load(Ordering::Relaxed) > 0 {
+                // every receiver runs until the disconnect, so every value is received; a
+                // receiver left asleep with a value queued keeps us (and the run) waiting
+                let o = OPS.begin(format!("{} keeps its end until all values are received", nm));
+                while !rt::wait_flag(&ALL_RECEIVED, 64) {}
+                o.done();
             }
             drop(tx);
         }));
